@@ -255,6 +255,57 @@ func TestTLSFaults(t *testing.T) {
 	core.MarkExhaustive("tlsfaults (every raw read call and write call of a full TLS session, TLS1.2 and TLS1.3 minimum)")
 }
 
+// TestFormatCounts enumerates Bind messages whose numbers of parameter and
+// result format codes do not fit the statement (inadmissible counts included),
+// followed by Describe portal, Execute and Sync.
+func TestFormatCounts(t *testing.T) {
+	if shard, _ := core.Shard(); shard != 0 {
+		return
+	}
+	for ncols := 0; ncols <= 4; ncols++ {
+		var cols []script.Col
+		var row []script.Val
+		for i := 0; i < ncols; i++ {
+			cols = append(cols, script.Col{Name: "c", T: []string{"int4", "text", "bool", "int8"}[i]})
+			row = append(row, []script.Val{{T: "int4", I: 7}, {T: "text", S: "x"}, {T: "bool", B: true}, {T: "int8", I: 9}}[i])
+		}
+		st := script.Stmt{Cols: cols, ScanAs: []string{"int4", "text"}, Ops: []script.Op{{K: "row", Vals: row}, {K: "complete", Tag: "SELECT 1"}}}
+		for nrf := 0; nrf <= 6; nrf++ {
+			for npf := 0; npf <= 3; npf++ {
+				for np := 0; np <= 2; np++ {
+					c := Case{EndEOF: true, Stepwise: true}
+					c.Cfg.SetLimit, c.Cfg.Limit = true, 4096
+					c.Cfg.Table.Q = map[string]script.Outcome{"q": {Stmts: []script.Stmt{st}}}
+					b := script.CMsg{K: "B", Portal: "p", Name: "s"}
+					for i := 0; i < nrf; i++ {
+						b.RFmts = append(b.RFmts, int16(i%2))
+					}
+					for i := 0; i < npf; i++ {
+						b.PFmts = append(b.PFmts, int16((i+1)%2))
+					}
+					for i := 0; i < np; i++ {
+						v := []byte{0, 0, 0, byte(i)}
+						b.Params = append(b.Params, &v)
+					}
+					c.Msgs = []script.CMsg{{K: "P", Name: "s", Query: "q"}, b, {K: "D", Kind: 'P', Portal: "p"}, {K: "E", Portal: "p"}, {K: "S"}, {K: "D", Kind: 'S', Name: "s"}, {K: "S"}}
+					core.RunCase(t, "formats", c, func(c Case) core.Result {
+						r := runLabelled(c)
+						r.NonTrivial = true
+						if nrf > 1 && nrf != ncols {
+							r.Labels = append(r.Labels, "inadmissible-result-format-count")
+						}
+						if npf > 1 && npf != np {
+							r.Labels = append(r.Labels, "inadmissible-parameter-format-count")
+						}
+						return r
+					})
+				}
+			}
+		}
+	}
+	core.MarkExhaustive("formats (0..4 columns x 0..6 result codes x 0..3 parameter codes x 0..2 parameters)")
+}
+
 func TestAlloc(t *testing.T) {
 	if shard, _ := core.Shard(); shard != 0 {
 		return
@@ -326,7 +377,7 @@ func FuzzFresh(f *testing.F) {
 }
 
 func TestReplay(t *testing.T) {
-	core.Replay(t, map[string]func(Case) core.Result{"copyrows": runLabelled, "fresh": runLabelled, "session": runLabelled, "faults": runLabelled, "fuzz-session": runLabelled, "fuzz-fresh": runLabelled})
+	core.Replay(t, map[string]func(Case) core.Result{"formats": runLabelled, "copyrows": runLabelled, "fresh": runLabelled, "session": runLabelled, "faults": runLabelled, "fuzz-session": runLabelled, "fuzz-fresh": runLabelled})
 }
 func TestReplayTLS(t *testing.T) {
 	core.Replay(t, map[string]func(TLSFault) core.Result{"tlsfaults": RunTLSFault})
